@@ -276,6 +276,14 @@ func init() {
 			if g.r.chance(1, 12) {
 				g.do(fmt.Sprintf("setprop c:%d:%d skip u5", idOf(t), g.r.n(g.ncols(t)+1)))
 			}
+			if c%15 == 7 {
+				// every column has its own boolean setting and the defaults column holds something that is no boolean:
+				// refused all the same
+				for n := 1; n <= g.ncols(t); n++ {
+					g.do(fmt.Sprintf("setprop c:%d:%d skip %s", idOf(t), n, g.r.pick([]string{"b0", "b1"})))
+				}
+				g.do(fmt.Sprintf("setprop c:%d:0 skip %s", idOf(t), g.r.pick([]string{"u5", "a1"})))
+			}
 			w := g.do("wrap json " + t)
 			res := g.do("render " + w)
 			viol := oracleJSON(g, t, res)
